@@ -13,6 +13,15 @@ CHECKS = {
         "tracker and every ID's forward/backward translation compared with the specification's answer, so the code is bound to the checked design.",
    note="Trusted: the projection (Send = get_effective_id + track_seen as prepare_message does), TLC, the environment assumption CanSend (IDs within a window of the frontier, no wrap-around).",
    ref="6/C04"),
+ "C03": dict(
+   technique="TLA+ format spec (ZeroCode.tla: closed-form Encode, reference Decode, cap law) + encoder/decoder machines model-checked by TLC "
+             "against it; B3 replay of every TLC-printed table row (all strings over {00,01,FF} up to the bound, all encoded strings over "
+             "{00,01,02,FF}, all zero runs 0..1100 x 16 contexts) through the real functions; TLC re-computation of recorded random/adversarial calls",
+   text="TLC checks round-trip, canonicity, no-wrap and the 2x bound in every state of the byte-fed encoder machine and the cap law on the decoder machine; "
+        "each enumerated input and its TLC-computed encoding is replayed through zero_code_compress/zero_code_expand, and recorded calls on random, long and "
+        "adversarial (wrap-form, trailing-zero, around-the-cap) inputs are re-computed by TLC, so both directions of the format are bound to the spec.",
+   note="Trusted: TLC, the run-length projection to_rl, the refusal window (must decode <= 0x3000, must refuse > 0x3000+256).",
+   ref="6/C03"),
 }
 
 PENDING = {}
